@@ -82,10 +82,17 @@ func (bs *TokenTransferInfo) DecodeBinary(r *io.BinReader) {
 	bs.NewNEP11Batch = r.ReadBool()
 	bs.NewNEP17Batch = r.ReadBool()
 	lenBalances := r.ReadVarUint()
-	m := make(map[int32]uint32, lenBalances)
+	if r.Err != nil {
+		return
+	}
+	m := make(map[int32]uint32, min(lenBalances, 1024))
 	for range lenBalances {
 		key := int32(r.ReadU32LE())
-		m[key] = r.ReadU32LE()
+		val := r.ReadU32LE()
+		if r.Err != nil {
+			return
+		}
+		m[key] = val
 	}
 	bs.LastUpdated = m
 }
